@@ -129,8 +129,8 @@ func init() {
 			return nil
 		},
 		Phases: []fw.Phase{
-			{Name: "trie-bytes", Space: "39 SQL bytes incl. both cases of b d e f n q u x ^<=5", Share: 4,
-				Run: func(w *fw.W) { w.Trie(c10Bytes, 1, 5) }, Eval: evalC10},
+			{Name: "trie-bytes", Space: "39 SQL bytes incl. both cases of b d e f n q u x ^<=4 (quick) / <=5 (thorough)", Share: 4,
+				Run: func(w *fw.W) { w.Trie(c10Bytes, 1, w.Pick(4, 5)) }, Eval: evalC10},
 			{Name: "trie-S2-fragments", Space: "S2^<=3 (quick) / <=4 (thorough)", Share: 3,
 				Run: func(w *fw.W) { w.Trie(alpha.S2, 1, w.Pick(3, 4)) }, Eval: evalC10},
 			{Name: "trie-S3-tokens", Space: "S3^<=3 (quick) / <=4 (thorough)", Share: 3,
